@@ -153,6 +153,7 @@ type OpPlan struct {
 }
 
 type RefStore struct {
+	hist map[string][]wItem // the latest versions written to each key (for notifications that arrive late)
 	bareSeq   bool // a refused Create is reported as the bare "wrong last sequence" API error
 	mockErrs  bool // conflicts and misses are reported in the mock store's words ("revision mismatch", "key not found")
 	mu        sync.Mutex
@@ -177,7 +178,7 @@ type RefStore struct {
 
 func newRefStore(tr *Trace, ttl time.Duration) *RefStore {
 	return &RefStore{tr: tr, ttl: ttl, data: map[string]*storeRec{}, tomb: map[string]*storeRec{}, opCount: map[int]int{}, cut: map[int]bool{}, dead: map[int]bool{}, opTimeout: 2 * time.Second,
-		done: make(chan struct{}), watchFail: map[int]int{}}
+		done: make(chan struct{}), watchFail: map[int]int{}, hist: map[string][]wItem{}}
 }
 
 type refEntry struct {
@@ -243,6 +244,10 @@ func (s *RefStore) writeLocked(key string, val []byte) uint64 {
 		delete(s.tomb, key)
 	}
 	r := &storeRec{val: append([]byte(nil), val...), rev: rev, lastWrite: time.Now()}
+	s.hist[key] = append(s.hist[key], wItem{rev: rev, val: append([]byte(nil), val...)})
+	if len(s.hist[key]) > 16 {
+		s.hist[key] = s.hist[key][len(s.hist[key])-16:]
+	}
 	if s.ttl > 0 {
 		r.timer = time.AfterFunc(s.ttl, func() {
 			s.mu.Lock()
@@ -544,6 +549,56 @@ type wItem struct {
 	rev   uint64
 	val   []byte
 	isNil bool
+	now   bool // delivered at once, whatever the scenario's delivery plan says (a notification injected by a step)
+}
+
+// lateEvent hands the watcher of an instance a notification that has been under way for a while: the latest earlier
+// version of the key that was written by somebody else (watch events can lag behind the store by any amount).
+func (s *RefStore) lateEvent(inst int, key string) bool {
+	s.mu.Lock()
+	defer s.mu.Unlock()
+	var cur uint64
+	if r := s.data[key]; r != nil {
+		cur = r.rev
+	}
+	own := fmt.Sprintf(`"id":"i%d"`, inst)
+	var it *wItem
+	h := s.hist[key]
+	for k := len(h) - 1; k >= 0; k-- {
+		if (cur == 0 || h[k].rev < cur) && len(h[k].val) > 0 && !strings.Contains(string(h[k].val), own) {
+			c := h[k]
+			it = &c
+			break
+		}
+	}
+	if it == nil {
+		return false
+	}
+	it.now = true
+	done := false
+	for _, w := range s.watches {
+		if w.inst != inst || w.key != key || !w.handed {
+			continue
+		}
+		select {
+		case <-w.stopCh:
+			continue
+		default:
+		}
+		// (not through the watcher's queue: the notification in front of it may be waiting for its own delivery time)
+		w, e := w, &refEntry{w.key, it.val, it.rev}
+		go func() {
+			select {
+			case w.ch <- e:
+				s.tr.logf("wev %d %d %d %s", w.id, w.inst, e.rev, s.tr.val(e.v))
+			case <-w.stopCh:
+			case <-s.done:
+			case <-time.After(50 * time.Millisecond):
+			}
+		}()
+		done = true
+	}
+	return done
 }
 
 type refWatch struct {
@@ -614,7 +669,7 @@ func (w *refWatch) pump() {
 		w.mu.Unlock()
 		var delay time.Duration
 		drop := false
-		if w.s.wplanFn != nil {
+		if w.s.wplanFn != nil && !it.now {
 			delay, drop = w.s.wplanFn(w.inst, nth)
 		}
 		w.s.mu.Lock()
